@@ -919,15 +919,17 @@ Definition gEvent (t : T) : option Event :=
   end.
 Definition gInput (t : T) : option Input :=
   match t with
-  | L [I 0%Z; a; b; o; am; s] =>
-      match getN a, getN b, getN o, getN am, getN s with
-      | Some a, Some b, Some o, Some am, Some s => Some (InCoin (a, b) o am s)
-      | _, _, _, _, _ => None
-      end
-  | L [I 1%Z; n; sd; rc; am; dt; rt] =>
-      match getN n, getN sd, getN rc, getN am, getN dt, getB rt with
-      | Some n, Some sd, Some rc, Some am, Some dt, Some rt => Some (InMsg n sd rc am dt rt)
+  (* the last field tells CoinSigned / CoinPredicate (Message...Signed / ...Predicate)
+     apart; the executor's bookkeeping does not look at it, so the model drops it *)
+  | L [I 0%Z; a; b; o; am; s; pr] =>
+      match getN a, getN b, getN o, getN am, getN s, getB pr with
+      | Some a, Some b, Some o, Some am, Some s, Some _ => Some (InCoin (a, b) o am s)
       | _, _, _, _, _, _ => None
+      end
+  | L [I 1%Z; n; sd; rc; am; dt; rt; pr] =>
+      match getN n, getN sd, getN rc, getN am, getN dt, getB rt, getB pr with
+      | Some n, Some sd, Some rc, Some am, Some dt, Some rt, Some _ => Some (InMsg n sd rc am dt rt)
+      | _, _, _, _, _, _, _ => None
       end
   | L [I 2%Z; c] => option_map InContract (getN c)
   | _ => None
@@ -1304,6 +1306,28 @@ Definition consumes (a : Att) (n : N) : bool :=
   existsb (fun i => match i with
                     | InMsg n' _ _ _ _ rt => (n' =? n) && negb (rt && att_reverted a)
                     | _ => false end) (t_inputs (a_tx a)).
+(* every coin input and every message input that is not (retryable and reverted) of an
+   included transaction is reported consumed; a message is reported consumed only through
+   such an input *)
+Definition inputs_consumed_ok (vatts : list Att) (evs : list Event) : bool :=
+  let atts := filter (fun a => negb (t_mint (a_tx a))) vatts in
+  forallb (fun a =>
+    forallb (fun i => match i with
+                      | InCoin k _ _ _ => existsb (utxo_eqb k) (consumed_keys evs)
+                      | InMsg n _ _ _ _ rt =>
+                          if rt && att_reverted a then true else mem n (consumed_msgs evs)
+                      | InContract _ => true end) (t_inputs (a_tx a))) atts &&
+  forallb (fun n => existsb (fun a => consumes a n) atts) (consumed_msgs evs).
+Fixpoint pcheck02_inputs (l : list (BlockIn * BlockObs)) : bool :=
+  match l with
+  | [] => true
+  | (bi, b) :: r =>
+      match committed b with
+      | Some v => inputs_consumed_ok (bi_vatts bi) (o_events v)
+      | None => true
+      end && pcheck02_inputs r
+  end.
+
 Definition pc04_block (bi : BlockIn) (b : BlockObs) : bool :=
   same_results bi b &&
   match committed b with
@@ -1379,7 +1403,7 @@ Definition main_hist (tag : Z) (observed : T) : T :=
             match mapM gBlockObs res with
             | Some obs =>
                 match tag with
-                | 2%Z => pcheck02 st obs
+                | 2%Z => pcheck02 st obs && pcheck02_inputs (combine bis' obs)
                 | 6%Z => pcheck06 st (combine bis' obs)
                 | 3%Z => pcheck03 P (combine bis' obs)
                 | 1%Z => pcheck01 (combine bis' obs)
